@@ -487,7 +487,8 @@ class VerifyAttrs(object):
         dim = attrs["dimension"]
         if dim:
             try:
-                declast.check_dimension(dim, metaattrs)
+                # A value given under attrs/fattrs in YAML may be a number.
+                declast.check_dimension(str(dim), metaattrs)
             except RuntimeError:
                 raise RuntimeError("Unable to parse dimension: {} at line {}"
                                    .format(dim, node.linenumber))
